@@ -12,10 +12,12 @@ CHECK = dict(
     floor={"asan:images_writePPM": 200, "asan:images_writePGM": 200, "asan:images_writePFM<float>": 200,
            "asan:images_writePFM<vec3f>": 200, "asan:images_writePFM<vec3fa>": 200, "asan:images_writePFM<vec4f>": 200,
            "asan:trace_files_checked_offline": 20, "asan:trace_events_compared_offline": 50000,
-           "tsan:trace_files_checked_offline": 5},
+           "tsan:trace_files_checked_offline": 5, "asan:trace_sequential_scenarios": 5,
+           "asan:trace_threads_that_reused_an_id": 5},
     assumptions=[
         "event names/categories come from stable storage over [A-Za-z0-9_ ] (the recorder caches strings by pointer and does not escape)",
-        "recording threads are quiescent and still alive when saveLog runs (thread ids stay distinct)",
+        "recording threads are quiescent when saveLog runs: either all still alive (distinct ids) or all exited after running one after "
+        "the other; threads that shared one std::thread::id are one recording thread to the recorder (events in sequence, last name)",
         "the writer's own cpuUtilization counters are ignored by the comparison",
     ],
 )
